@@ -89,6 +89,26 @@ static void gen_sockets(vh_rng_t *rng)
     app_cfg.udp_max_queries = vh_range(rng, 1, 2);
   }
   sim_rand_fault_permille = vh_chance(rng, 1, 2) ? vh_range(rng, 5, 80) : 0;
+  if (vh_chance(rng, 1, 4) && sim_nfaults < SIM_MAXFAULT) {
+    /* the network goes away: from some transmission on every send fails, on every socket, for good.  Retries, failover
+     * to the next server and probes of the failed one then all fail on the spot, inside whatever call started them */
+    static const int errs[] = { ENETUNREACH, ENETDOWN, EPERM, ENOBUFS };
+    memset(&sim_faults[sim_nfaults], 0, sizeof(sim_faults[0]));
+    sim_faults[sim_nfaults].kind   = SF_SENDTO;
+    sim_faults[sim_nfaults].nth    = vh_range(rng, 1, 10);
+    sim_faults[sim_nfaults].err    = errs[vh_below(rng, 4)];
+    sim_faults[sim_nfaults].sticky = 1;
+    sim_nfaults++;
+    if (vh_chance(rng, 2, 3)) {
+      app_cfg.failover_set      = 1;
+      app_cfg.failover_chance   = vh_chance(rng, 1, 2) ? 1 : 2;
+      app_cfg.failover_delay_ms = vh_chance(rng, 1, 2) ? 0 : 5;
+    }
+    if (vh_chance(rng, 1, 2)) {
+      app_cfg.tries = 1;
+    }
+    sim_note("sockets_network_goes_away");
+  }
   /* many sockets at once: one query per datagram socket, a dozen and more requests in the same instant, servers
    * that take their time, socket buffers that fill up - the legacy pollers (ares_fds / ares_getsock, 16 slots
    * with a read and a write bit each) see their tables full */
@@ -198,7 +218,7 @@ static void gen_scenario_kv(int kind, int variant)
     case 5: /* stay-open reuse */
       app_cfg.flags |= ARES_FLAG_STAYOPEN;
       SCN_TOK(RK_QUERY, "a5.example.com", 1, 0);
-      SCN_TOK(RK_QUERY, "b5.example.com", 1, 50000);
+      SCN_TOK(RK_QUERY, "b5.example.com", 1, 350000);
       break;
     case 6: /* per-socket query limit */
       app_cfg.udp_max_queries = 1;
@@ -395,6 +415,58 @@ static void gen_scenario_kv(int kind, int variant)
       gen_add_action(3000, AA_SET_SORTLIST, 0, 1);
       SCN_TOK(RK_GETHOSTBYNAME, "dup24", 1, 4000);
       app_tok[ti].family = AF_INET;
+      break;
+    case 30: /* requests waiting on a server that failed once, another one on the healthy server, then a compound request:
+              * its question goes to the healthy server, the failed one gets probed - and from some send on the network is gone */
+      {
+        sim_rule_t *r0 = &sim_srv[app_cfg.srv_cfg[0]].rules[0];
+        int         which = variant % 6;
+        app_cfg.tries             = 1 + (variant / 6) % 2;
+        app_cfg.failover_set      = 1;
+        app_cfg.failover_chance   = 1;
+        app_cfg.failover_delay_ms = 0;
+        app_cfg.timeout_ms        = 2000;
+        for (i = 0; i < sim_nsrv; i++) {
+          sim_srv[i].delay_min_ms = sim_srv[i].delay_max_ms = 300;
+        }
+        memset(r0, 0, sizeof(*r0));
+        snprintf(r0->name, sizeof(r0->name), "s30.example.com");
+        r0->action = SA_SERVFAIL;
+        sim_srv[app_cfg.srv_cfg[0]].nrules = 1;
+        SCN_TOK(RK_QUERY, "s30.example.com", 1, 0);
+        /* s30 fails at A at 300 ms and moves to B; w30 is then waiting at A (until 500 ms); the compound request starts at 350 ms */
+        SCN_TOK(RK_QUERY_DNSREC, "w30.example.com", 1, 200000);
+        if ((variant / 12) % 2) {
+          SCN_TOK(RK_SEND_DNSREC, "x30.example.com", 28, 210000);
+        }
+        switch (which) {
+          case 0:
+            SCN_TOK(RK_GETADDRINFO, "h30.example.com", 1, 350000);
+            app_tok[ti].family = AF_INET;
+            break;
+          case 1:
+            SCN_TOK(RK_GETADDRINFO, "h30.example.com", 1, 350000);
+            app_tok[ti].family = AF_UNSPEC;
+            break;
+          case 2:
+            SCN_TOK(RK_GETHOSTBYNAME, "h30.example.com", 1, 350000);
+            app_tok[ti].family = AF_UNSPEC;
+            break;
+          case 3:
+            SCN_TOK(RK_SEARCH, "h30.example.com", 1, 350000);
+            break;
+          case 4:
+            SCN_TOK(RK_GETHOSTBYADDR, "", 1, 350000);
+            app_tok[ti].family  = AF_INET;
+            app_tok[ti].addr[0] = 192; app_tok[ti].addr[2] = 2; app_tok[ti].addr[3] = 30;
+            break;
+          default:
+            SCN_TOK(RK_GETNAMEINFO, "", 1, 350000);
+            app_tok[ti].family  = AF_INET;
+            app_tok[ti].addr[0] = 192; app_tok[ti].addr[2] = 2; app_tok[ti].addr[3] = 31;
+            break;
+        }
+      }
       break;
     default: /* 19: many options at init, answers with many records and a CNAME chain */
       app_cfg.local_bind      = 1;
@@ -968,6 +1040,27 @@ static int profile_run(const char *profile, vh_rng_t *rng, uint64_t idx)
   }
   if (!strcmp(profile, "faultenum")) {
     run_faultenum(idx);
+    return 1;
+  }
+  if (!strcmp(profile, "sendcut")) {
+    /* enumeration: scenario variant x "every send from the k-th on fails" */
+    int k = (int)(idx % 14) + 1;
+    static const int errs[] = { ENETUNREACH, ECONNREFUSED, EPERM };
+    gen_scenario_kv(30, (int)(idx / 14));
+    memset(&sim_faults[0], 0, sizeof(sim_faults[0]));
+    sim_nfaults          = 1;
+    sim_faults[0].kind   = SF_SENDTO;
+    sim_faults[0].nth    = k;
+    sim_faults[0].err    = errs[(idx / 14) % 3];
+    sim_faults[0].sticky = 1;
+    run_generic(NULL);
+    if (sim_faults_fired == 0) {
+      case_nontrivial = 0;
+      vh_count("sendcut_beyond_last_send");
+    } else {
+      vh_count("sendcut_fired");
+    }
+    fd_fingerprint();
     return 1;
   }
   return 0;
